@@ -294,7 +294,9 @@ def write_evidence(report, proofs, wall_s, violations, extra=None):
                        + ("; lake env leanchecker <the same modules>" if report.tier == "thorough" else ""),
         "trusted_base": [
             "Lean 4.33.0 kernel; axioms allowed in property theorems: propext, Classical.choice, Quot.sound (audited with #print axioms every run)",
-            "harness/gen.py (facts regenerated from the current source: constants, lock nesting, guard prefixes)",
+            "harness/gen.py (facts regenerated from the current source: constants, lock nesting, guard prefixes, twin structure)",
+            "harness/pytrans.py + lean/AdbModel/Py.lean (translation of the pure helpers' current source into Lean; the *Src* theorems prove it equal to the model; "
+            "the translator is validated every run by executing the generated definitions next to the real functions, counted in distributions.srccheck_*)",
             "the differential correspondence harness (model = code is SAMPLED on the cases counted below, not proved)",
             "CPython, struct, threading/asyncio primitives, sockets, libusb, crypto libraries: modelled, not verified",
         ],
